@@ -7,6 +7,7 @@ import (
 	"fmt"
 	"strings"
 
+	"go.pennock.tech/tabular"
 	"go.pennock.tech/tabular/auto"
 	"go.pennock.tech/tabular/length"
 	"go.pennock.tech/tabular/properties/align"
@@ -28,6 +29,24 @@ type Case struct {
 	// Pre > 0: the text wrapper is created and rendered once after Pre-1 operations, while the table is still
 	// incomplete; the final renders go through that same wrapper.
 	Pre int `json:"pre,omitempty"`
+	// AlignByCallback: the alignments are not set directly but by a pre-cell render callback on the table itself
+	// (a callback is handed the live table; what it sets is what the columns ask for in that very pass).
+	AlignByCallback bool `json:"align_by_callback,omitempty"`
+}
+
+type alignSetter struct {
+	t  tabular.Table
+	al []int
+}
+
+func (a alignSetter) UpdateProperties(tabular.PropertyOwner) error {
+	n := a.t.NColumns()
+	for i := 0; i <= n && i < len(a.al); i++ {
+		if v := AlignValue(a.al[i]); v != nil {
+			a.t.Column(i).SetProperty(align.PropertyType, v)
+		}
+	}
+	return nil
 }
 
 func AlignValue(a int) align.Alignment {
@@ -78,8 +97,18 @@ func Prepare(c Case) Prepared {
 	al := make([]int, n+1)
 	for i := 0; i <= n && i < len(c.Align); i++ {
 		al[i] = c.Align[i]
-		if v := AlignValue(c.Align[i]); v != nil {
+		if v := AlignValue(c.Align[i]); v != nil && !c.AlignByCallback {
 			t.Column(i).SetProperty(align.PropertyType, v)
+		}
+	}
+	if c.AlignByCallback && early == nil {
+		t.RegisterPropertyCallback(t, tabular.CB_AT_RENDER_PRECELL, tabular.CB_ON_ITSELF, alignSetter{t, al})
+	} else if c.AlignByCallback {
+		// the wrapper has rendered already: set directly
+		for i := 0; i <= n; i++ {
+			if v := AlignValue(al[i]); v != nil {
+				t.Column(i).SetProperty(align.PropertyType, v)
+			}
 		}
 	}
 	deco, boxless := c.Deco.Make()
